@@ -209,7 +209,7 @@ def main() -> int:
     thorough = common.tier() == "thorough"
     fam = enum_exps.c01_family(False)
     # programs where the compiler dropped an op (offset gaps) and gap-free ones; all routine kinds; failing sources
-    srcs = fam[:: (160 if not thorough else 8)] + [gen_exps.random_program(rng, 2) for _ in range(60 if not thorough else 2000)]
+    srcs = fam[:: (160 if not thorough else 8)] + [gen_exps.random_program(rng, max_depth=1, max_stmts=rng.choice([2, 3, 4])) for _ in range(60 if not thorough else 2000)]
     srcs += ["def 0 { a(); return; }", "coro A { a(); return; }\ncoro B { b(); end; }", "def 0 { if ($V == 1) { a(); } b(); return; }",
              "def 0 for actor 3 { a(); hold; }\ndef 1 for object OBJ_X { while ($V == 1) { b(); } return; }", "def 0 { break; }", "def 0 { x(", "def 0 { jump @nowhere; }", ""]
     bad_c, bad_d = invalid_invocations()
